@@ -457,8 +457,13 @@ class Replay:
         sep = norm_sep(sep)
         if kind == 'wait':
             op = self.waitop
-            if op == 'aexit' and not (self.close_sent and not self.pending):
-                op = 'wait'     # "async with" closes the channel itself
+            if op == 'aexit' and not (
+                    self.close_sent and not self.pending and
+                    all(d in self.targets for d in self.readers)):
+                # "async with" closes the channel itself, which by design
+                # discards input the application has not read yet: it only
+                # stands for wait() when every stream goes to a target
+                op = 'wait'
             proc = self.proc
 
             async def wait():
